@@ -15,7 +15,7 @@ Import ListNotations.
 From JS Require Import Model.Base Model.Shape Model.Sem Model.Infer Model.Lexer Model.Parser
   Model.Walk Model.TextApi Model.ValueCost Model.JsonRef Model.Depth
   Proofs.TextFacts Proofs.TextLexer Proofs.TextParser Proofs.TextWalk Proofs.TextApiFacts
-  Proofs.InferNoPanic Proofs.CstTree Proofs.DepthBound.
+  Proofs.InferNoPanic Proofs.CstTree Proofs.DepthBound Proofs.ShapeDepth.
 
 (* ---- entry points, the code as it is ---- *)
 Theorem C05_from_str_no_panic : forall src, from_str_m cfg_now src <> Panic.
@@ -185,3 +185,15 @@ Example C05_nonvacuous :
   from_str_m cfg_now [91; 93]%N = Ok (SArray SNull true) /\
   from_str_m cfg_now [123; 34; 97; 34; 58; 91; 93; 125]%N = Ok (SObject [([97%N], SArray SNull true)] false).
 Proof. vm_compute. repeat split. Qed.
+
+(* ---- depth of the shapes themselves: merger and is_subset are structural recursions on their first
+   argument in the model ({struct a}), so their call nesting is bounded by sdepth of that argument; for
+   every shape the text path infers, sdepth is at most the nesting depth of the document (hence <= 256) ---- *)
+Theorem C05_shape_depth_bound : forall d s, infer_text d = Ok s -> sdepth s <= jdepth d.
+Proof. exact infer_text_depth. Qed.
+Print Assumptions C05_shape_depth_bound.
+
+Example C05_shape_depth_tight :
+  let d := JArr [JObj [([97%N], JArr [JNum; JStr])]; JObj [([98%N], JNull)]] in
+  exists s, infer_text d = Ok s /\ sdepth s = jdepth d.
+Proof. exact infer_text_depth_tight. Qed.
